@@ -220,6 +220,9 @@ def oracle_c03(rr: Any, spec: Dict[str, Any]) -> "tuple[List[Violation], Dict[st
             if hooks_open[d] <= 0 and d in exited:
                 open_cb.discard(d)
         elif k == "task_start":
+            if e.get("on_loop_thread") and not any(x.kind == "sync-function-on-loop-thread" for x in v):
+                v.append(Violation("sync-function-on-loop-thread", f"the blocking (sync) task function of delivery {d} ran on the event-loop thread: while it runs "
+                                   "the worker processes nothing else, whatever max_async_tasks says"))
             running.add(d)
             if A and len(running) > A:
                 v.append(Violation("over-admission", f"{len(running)} task functions running at once > max_async_tasks={A} at t={e['t']}"))
@@ -334,6 +337,10 @@ def oracle_c04(rr: Any, spec: Dict[str, Any]) -> "tuple[List[Violation], int]":
         elif k.startswith("mw:") and e.get("slow"):
             s["hooks_open"] = s.get("hooks_open", 0) + 1
         elif k.startswith("mw_end:"):
+            s["hooks_open"] = s.get("hooks_open", 0) - 1
+        elif k == "set_enter":  # the result of this message is being written: the message is still being worked on
+            s["hooks_open"] = s.get("hooks_open", 0) + 1
+        elif k in ("set_exit", "set_fail"):
             s["hooks_open"] = s.get("hooks_open", 0) - 1
         elif k == "kick_wait":  # a send this execution started (Context.requeue) is in flight: the message is still held
             s["hooks_open"] = s.get("hooks_open", 0) + 1
@@ -545,6 +552,43 @@ def _in_uncached(spec: Dict[str, Any], name: str) -> bool:
     return name in below
 
 
+def _context_membership(spec: Dict[str, Any]) -> Dict[str, set]:
+    """dep name -> {True} if every path from a task to it passes a use_cache=False node strictly above it (it is only
+    ever opened in a resolver sub-context), {False} if no path does (main context only), {True, False} if both occur."""
+    deps = spec.get("deps", {})
+    out: Dict[str, set] = {}
+
+    def walk(n: str, below: bool, depth: int = 0) -> None:
+        if depth > 12 or n not in deps:
+            return
+        out.setdefault(n, set()).add(below)
+        nxt = below or not deps[n].get("cache", True)
+        for s_ in deps[n].get("subs", []):
+            walk(s_, nxt, depth + 1)
+
+    for ts in (spec.get("tasks") or {}).values():
+        for r in ts.get("deps", []):
+            walk(r, False)
+    for orig, repl in (spec.get("overrides") or {}).items():
+        walk(repl, False)
+    return out
+
+
+def _in_subcontext(spec: Dict[str, Any], name: str) -> bool:
+    """True if the dependency sits strictly *below* a use_cache=False node: the resolver opens (and closes) those in a
+    sub-context of their own, while the un-cached node itself belongs to the context of whoever depends on it."""
+    deps = spec.get("deps", {})
+    below: set = set()
+    frontier = [s_ for n, nd in deps.items() if not nd.get("cache", True) for s_ in nd.get("subs", [])]
+    while frontier:
+        n = frontier.pop()
+        if n in below:
+            continue
+        below.add(n)
+        frontier.extend(deps[n].get("subs", []))
+    return name in below
+
+
 def _walk_deps(val: Any, d: Any, chk: Any, spec: Dict[str, Any]) -> None:
     if isinstance(val, dict):
         if "dep" in val and "echo" in val:
@@ -618,7 +662,10 @@ def oracle_c07(rr: Any, spec: Dict[str, Any]) -> "tuple[List[Violation], int]":
                 v.append(Violation("is-err-wrong", f"delivery {d} returned but result has is_err={res.is_err}, error={res.error!r}"))
             want = {"tok": info["tok"], "v": beh.get("value")}
             got = res.return_value
-            if not isinstance(got, dict) or got.get("tok") != want["tok"] or got.get("v") != want["v"]:
+            if beh.get("ret_exc"):
+                if not (isinstance(got, ValueError) and got.args == ("just a value", info["tok"])):
+                    v.append(Violation("return-value-wrong", f"delivery {d}: the function returned an exception object as its value, the stored return_value is {got!r} (is_err={res.is_err}, error={res.error!r})"))
+            elif not isinstance(got, dict) or got.get("tok") != want["tok"] or got.get("v") != want["v"]:
                 v.append(Violation("return-value-wrong", f"delivery {d}: stored return_value {got!r}, expected token/value {want}"))
             elif beh.get("ret_handle") and type(got).__name__ != "_Handle":
                 v.append(Violation("return-value-wrong", f"delivery {d}: the function returned an awaitable handle object, the stored return_value is {type(got).__name__}"))
@@ -933,4 +980,11 @@ def _only_uncached_inversions(spec: Dict[str, Any], open_seq: List[str], close_s
     main_close = [n for n in close_seq if not _in_uncached(spec, n)]
     if len(main_open) == len(open_seq):
         return False  # no un-cached sub-graph involved at all
-    return main_close == list(reversed(main_open))
+    if main_close != list(reversed(main_open)):
+        return False
+    # the recorded mechanism closes the resolver's sub-contexts *first* and the main context's own dependencies after
+    # them: any other placement of the un-cached sub-graph's dependencies is a different defect
+    where = _context_membership(spec)
+    sub_pos = [i for i, n in enumerate(close_seq) if where.get(n) == {True}]
+    main_pos = [i for i, n in enumerate(close_seq) if where.get(n) == {False}]
+    return not main_pos or not sub_pos or max(sub_pos) < min(main_pos)
